@@ -1,0 +1,63 @@
+//! Verification hooks, compiled only with `--cfg assets_manager_verif`.
+//!
+//! A process-wide tracer that an external harness can install; every hook is a
+//! one-line `emit` call at a linearization point. Nothing is emitted (and the
+//! field strings are not even built) unless a tracer has been installed.
+
+use std::sync::atomic::{AtomicUsize, Ordering};
+
+/// Receives the hook name and a JSON fragment (`"k":v,"k2":v2`).
+pub type Tracer = fn(&'static str, String);
+
+static TRACER: AtomicUsize = AtomicUsize::new(0);
+
+/// Installs the tracer.
+pub fn set_tracer(f: Tracer) {
+    TRACER.store(f as usize, Ordering::SeqCst);
+}
+
+#[inline]
+pub(crate) fn emit(name: &'static str, fields: impl FnOnce() -> String) {
+    let f = TRACER.load(Ordering::Relaxed);
+    if f != 0 {
+        let f: Tracer = unsafe { std::mem::transmute::<usize, Tracer>(f) };
+        f(name, fields());
+    }
+}
+
+pub(crate) fn key(id: &str, type_id: std::any::TypeId) -> String {
+    format!("\"id\":{:?},\"ty\":\"{:?}\"", id, type_id)
+}
+
+#[cfg(feature = "hot-reloading")]
+pub(crate) fn entry(e: &crate::source::OwnedDirEntry) -> String {
+    match e {
+        crate::source::OwnedDirEntry::File(id, ext) => {
+            format!("{{\"k\":\"file\",\"id\":{:?},\"ext\":{:?}}}", id.as_str(), ext.as_str())
+        }
+        crate::source::OwnedDirEntry::Directory(id) => {
+            format!("{{\"k\":\"dir\",\"id\":{:?}}}", id.as_str())
+        }
+    }
+}
+
+#[cfg(feature = "hot-reloading")]
+pub(crate) fn dep(d: &crate::hot_reloading::Dependency) -> String {
+    use crate::hot_reloading::Dependency;
+    match d {
+        Dependency::File(id, ext) => {
+            format!("{{\"k\":\"file\",\"id\":{:?},\"ext\":{:?}}}", id.as_str(), ext.as_str())
+        }
+        Dependency::Directory(id) => format!("{{\"k\":\"dir\",\"id\":{:?}}}", id.as_str()),
+        Dependency::Asset(k) => format!("{{\"k\":\"asset\",{}}}", key(&k.id, k.type_id)),
+    }
+}
+
+#[cfg(feature = "hot-reloading")]
+pub(crate) fn deps(d: &crate::hot_reloading::Dependencies) -> String {
+    let v: Vec<String> = d.iter().map(dep).collect();
+    format!("[{}]", v.join(","))
+}
+
+#[cfg(feature = "hot-reloading")]
+pub use crate::hot_reloading::verif_api as watcher;
